@@ -25,9 +25,10 @@ def scenarios(tier):
           ("mixed", Config(levels=1, ndisks=2, contents=["c0/content", "c1/content"]), base, mixed, False, ()),
           # a hash migration is pending while the sync is interrupted
           ("adds-rehash", Config(levels=2, ndisks=2), base + [("cmd", "rehash")], adds, True, ())]
+    sc += [("adds-autosave", Config(levels=2, ndisks=2), base, adds, True, ("--test-force-autosave-at", "3")),
+           ("mixed-prehash", Config(levels=1, ndisks=2), base, mixed, False, ("-h",))]
     if tier == "thorough":
         sc += [("adds", Config(levels=3, ndisks=2, splits={0: 2, 1: 2, 2: 2}, parity_limit=4096), base, adds, True, ()),
-               ("adds-autosave", Config(levels=2, ndisks=2), base, adds, True, ("--test-force-autosave-at", "3")),
                ("mixed", Config(levels=6, ndisks=2), base, mixed, False, ()),
                ("mixed-autosave", Config(levels=1, ndisks=2, contents=["c0/content", "c1/content", "c2/content"]), base, mixed, False, ("--test-force-autosave-at", "2")),
                ("adds", Config(levels=2, ndisks=2, hashkind="spooky2", hashsize=8), base, adds, True, ("-h",))]
